@@ -49,6 +49,17 @@ class Sut:
     pass
 
 
+def other_service_only(before, after, own_sid):
+    """name of the one new top-level directory if EVERYTHING that changed lies below it (and it is not the service's own)"""
+    changed = [k for k in set(after) | set(before) if after.get(k) != before.get(k)]
+    tops = {k.split('/')[0] for k in changed}
+    if len(tops) == 1:
+        top = next(iter(tops))
+        if top and top != own_sid and not any(k.split('/')[0] == top for k in before):
+            return top
+    return None
+
+
 class ClientSystem:
     def __init__(self, seed, name):
         self.seed, self.name = seed, name
@@ -199,11 +210,20 @@ class ClientSystem:
                         if result.get(w) != ids:
                             probs.append(('search-wrong-after-upload', 'search', ids, result.get(w)))
         else:
-            if raised is None:
-                probs.append(('invalid-operation-accepted', '%s/flags=%s' % (ev, format(s.flags, '05b')), 'refused with an error', 'accepted'))
-            if after != before:
-                changed = sorted(k for k in set(after) | set(before) if after.get(k) != before.get(k))
-                probs.append(('refused-operation-changed-files', '%s/flags=%s' % (ev, format(s.flags, '05b')), 'client files byte-identical', changed))
+            other = other_service_only(before, after, s.cl.sid) if ev == 'create-again' and raised is None else None
+            if other:
+                # the service id is a hash of pickle.dumps(config), which is not canonical (two equal strings pickle differently
+                # depending on whether they are one object): the salted configuration read back from config.json may therefore name
+                # ANOTHER service.  Creating another service is not a redo of a step of this one; this one must be untouched.
+                probs.append(('observation', 'create-again-made-another-service', None, None))
+                import shutil
+                shutil.rmtree(os.path.join(str(self.m['cfm']._PROGRAM_PATH), other), ignore_errors=True)
+            else:
+                if raised is None:
+                    probs.append(('invalid-operation-accepted', '%s/flags=%s' % (ev, format(s.flags, '05b')), 'refused with an error', 'accepted'))
+                if after != before:
+                    changed = sorted(k for k in set(after) | set(before) if after.get(k) != before.get(k))
+                    probs.append(('refused-operation-changed-files', '%s/flags=%s' % (ev, format(s.flags, '05b')), 'client files byte-identical', changed))
         # persisted flags
         pf = self.persisted_flags(s)
         if s.flags and pf != s.flags:
@@ -460,6 +480,9 @@ def run_unit(p, tier, seed):
     ALPHABET_ = CLI_ALPHABET if p.get('cli') else ALPHABET
 
     def on_problem(hist, ev, prob):
+        if prob[0] == 'observation':
+            r.count(prob[1])
+            return
         r.v(PROPERTY, 'client', prob[0], prob[1], {'scheme': p['scheme'], 'history': list(hist), 'event': ev, 'engine': p['kind'], 'cli': bool(p.get('cli'))}, prob[2], prob[3])
         r.outcome(prob[0])
 
@@ -538,7 +561,8 @@ def replay(case, seed):
         for ev in case['history']:
             system.step(s, ev)
         for prob in system.step(s, case['event']):
-            r.v(PROPERTY, 'client', prob[0], prob[1], case, prob[2], prob[3])
+            if prob[0] != 'observation':
+                r.v(PROPERTY, 'client', prob[0], prob[1], case, prob[2], prob[3])
     finally:
         system.dispose(s)
     return r['violations']
